@@ -69,6 +69,9 @@ type driver struct {
 	keys     map[uint32]struct{}
 	pad      int
 	famHeavy bool // create-family and reopen are frequent, several families exist before the first reopen
+	crnd     *rand.Rand // stream of the commit convoys (convoy.go); the history's own stream is not consumed by them
+	gate     *gateIC
+	res      *childResult
 }
 
 func (d *driver) begin(kind, family string) *opRec {
@@ -186,6 +189,16 @@ func (d *driver) planFlush(family string, empty bool, leader int32) flushPlan {
 }
 
 func (d *driver) doFlush(p flushPlan) error {
+	op, fl, err := d.buildFlush(p)
+	if err != nil {
+		return err
+	}
+	return d.commitFlush(op, fl)
+}
+
+// buildFlush opens the operation in the ledger, creates the flusher and hands it every key/value (and the sequence);
+// nothing is committed yet. On error the flusher is released and the operation closed.
+func (d *driver) buildFlush(p flushPlan) (*opRec, kv.Flusher, error) {
 	kind := "flush"
 	if len(p.keys) == 0 {
 		kind = "flush-empty"
@@ -202,7 +215,6 @@ func (d *driver) doFlush(p flushPlan) error {
 	f := d.fams[p.family]
 	fl := f.NewFlusher()
 	err := func() error {
-		defer fl.Release()
 		for i, k := range p.keys {
 			val := encodeValue([]uint32{p.toks[i]}, d.pad*int(1+p.toks[i]%5))
 			if p.stream {
@@ -228,9 +240,21 @@ func (d *driver) doFlush(p flushPlan) error {
 		if p.hasSeq {
 			fl.Sequence(p.leader, p.seq)
 		}
-		return fl.Commit()
+		return nil
 	}()
+	if err != nil {
+		fl.Release()
+		d.end(op, err)
+		return op, nil, err
+	}
+	return op, fl, nil
+}
+
+// commitFlush commits a built flusher, releases it and closes the operation in the ledger.
+func (d *driver) commitFlush(op *opRec, fl kv.Flusher) error {
+	err := fl.Commit()
 	d.end(op, err)
+	fl.Release()
 	return err
 }
 
@@ -301,6 +325,9 @@ func runHistoryChild() {
 	imgDir := filepath.Join(dir, "img")
 	world := imgfs.NewWorld(storeDir, imgDir)
 	d := &driver{rnd: rnd, world: world, storeDir: storeDir, seqs: map[string]int64{}, keys: map[uint32]struct{}{}}
+	d.crnd = rand.New(rand.NewSource(seed*15485863 + int64(idx)*32452843 + 29))
+	d.gate = &gateIC{world: world}
+	d.res = res
 	d.cfg = historyCfg{Levels: 2 + rnd.Intn(2), Threshold: 2 + rnd.Intn(2)}
 	if rnd.Intn(2) == 0 {
 		d.cfg.Rollup = []timeutil.Interval{timeutil.Interval(300_000), timeutil.Interval(3600_000)}
@@ -321,7 +348,7 @@ func runHistoryChild() {
 	}
 
 	seam.NoFsync = true
-	seam.InstallKV(world, nil)
+	seam.InstallKV(d.gate, nil)
 	world.Enable(true)
 	world.Snapshot("initial")
 
@@ -422,7 +449,15 @@ func (d *driver) driveRandom(tier string) error {
 		sort.Strings(ns)
 		return ns
 	}
+	// commit convoys (several overlapping commits of one family, convoy.go) at two places of the history: one in the
+	// middle, one in the last third, so that flushes, compactions, reopens and crash points follow them
+	convoyAt := map[int]bool{nOps/3 + d.crnd.Intn(1+nOps/3): true, 2*nOps/3 + d.crnd.Intn(nOps-2*nOps/3): true}
 	for i := 0; i < nOps; i++ {
+		if convoyAt[i] {
+			if err := d.convoy(d.planConvoy(famNames())); err != nil {
+				return err
+			}
+		}
 		names := famNames()
 		fam := names[d.rnd.Intn(len(names))]
 		r := d.rnd.Intn(100)
